@@ -85,3 +85,31 @@ func H_C20_kinds() {
 	verif.Assert(verif.Eq(vars, map[string]any{"k": vals[v3]}), "final-map")
 	verif.Reach("end")
 }
+
+// H_C20_keys: registers are named by the key's text: 1 and '1' are one
+// register, 1 and 1.5 and 2.5 are different ones, large and fractional
+// numeric keys keep their full text in the caller's map.
+func H_C20_keys() {
+	exprs := []string{"1", "1.5", "'1'", "2.5", "1000000", "'k'", "0.25"}
+	texts := []string{"1", "1.5", "1", "2.5", "1e+06", "k", "0.25"}
+	k1 := verif.Choose("k1", len(exprs))
+	k2 := verif.Choose("k2", len(exprs))
+	k3 := verif.Choose("k3", len(exprs))
+	g := verif.Choose("get", len(exprs))
+	x := verif.F64("x")
+	verif.Assume(x == x)
+	vars := map[string]any{}
+	doc := Map{"t": []any{Map{"x": x}}}
+	sql := "SELECT SETVAR(" + exprs[k1] + ", x), SETVAR(" + exprs[k2] + ", x + 1), SETVAR(" + exprs[k3] + ", 'v3'), GETVAR(" + exprs[g] + ") AS g FROM t"
+	got, ok := runQuery(doc, sql, WithVars(vars))
+	if !ok {
+		return
+	}
+	reg := map[string]any{}
+	reg[texts[k1]] = x
+	reg[texts[k2]] = x + 1
+	reg[texts[k3]] = "v3"
+	verif.Assert(verif.Eq(got, []any{Map{"g": reg[texts[g]]}}), "register-semantics")
+	verif.Assert(verif.Eq(vars, reg), "final-map")
+	verif.Reach("end")
+}
